@@ -287,7 +287,11 @@ async def commands_layer(spec, acc, ctx):
         fmt = ["hex", "int", "raw", "utf8"][k % 4]
         if fmt == "utf8":
             isz = cfg.get("param_identifier_size", 8)
-            db_json = {"kw1": ["".join(rng.choice("abcdefgh") for _ in range(isz)).encode().hex() for _ in range(3)],
+            n1 = max(1, min(3, gen.caps(scheme, cfg)["max_list"]))
+            ids1 = set()
+            while len(ids1) < n1:
+                ids1.add("".join(rng.choice("abcdefgh") for _ in range(isz)).encode().hex())
+            db_json = {"kw1": sorted(ids1),
                        "kw2": ["".join(rng.choice("ijklmnop") for _ in range(isz)).encode().hex()]}
             if scheme == "CGKO06.SSE2":
                 cfg["param_n"] = 4
